@@ -147,6 +147,7 @@ let dispatch (fn : Stdlib.String.t) (args : v list) : v =
   | "links_diff", [a; b] ->
       let (n, d) = links_diff (to_list to_anchor a) (to_list to_anchor b) in
       L [of_nat n; of_list of_entry d]
+  | "sort_links", [l] -> of_list of_link (sort_links (to_list to_link l))
   | "page_links", [a] -> of_list of_link (page_links (to_list to_anchor a))
   | "links_assemble", [a; b; ops] ->
       let d = x_links_assemble_diff (to_list to_link a) (to_list to_link b) (to_list to_opcode ops) in
